@@ -472,6 +472,9 @@ def _tuple(ex, st, args, kwargs):
         return
     items = bm.iter_values(ex, st, a)
     if items is None:
+        if isinstance(a, Opaque):
+            yield st, Opaque("PyTuple")  # an abstract collection copied into a tuple: contents unknown
+            return
         raise U(f"tuple() of {a!r}")
     yield st, tuple(items)
 
@@ -1278,6 +1281,14 @@ def _m_upper(ex, st, s, args, kwargs):
     yield st, SV("str", fn(s.t))
 
 
+def _m_title(ex, st, s, args, kwargs):
+    if not is_sym(s):
+        yield st, s.title()
+        return
+    fn = ex.uf("py_title", z3.StringSort(), z3.StringSort())  # a function of the text, nothing else is known
+    yield st, SV("str", fn(s.t))
+
+
 def _m_lower(ex, st, s, args, kwargs):
     if not is_sym(s):
         yield st, s.lower()
@@ -1544,7 +1555,7 @@ METHODS = {
     ("str", "find"): _m_find, ("str", "rpartition"): _m_rpartition, ("str", "rfind"): _m_rfind, ("str", "partition"): _m_partition,
     ("str", "isdigit"): _m_isdigit, ("str", "isalpha"): _m_isalpha, ("str", "lstrip"): _m_lstrip,
     ("str", "ljust"): _m_ljust, ("str", "replace"): _m_replace, ("str", "join"): _m_join,
-    ("str", "split"): _m_split, ("str", "encode"): _m_encode, ("str", "upper"): _m_upper, ("str", "lower"): _m_lower,
+    ("str", "split"): _m_split, ("str", "encode"): _m_encode, ("str", "upper"): _m_upper, ("str", "title"): _m_title, ("str", "lower"): _m_lower,
     ("list", "append"): _l_append, ("list", "pop"): _l_pop, ("list", "insert"): _l_insert,
     ("list", "clear"): _l_clear, ("list", "extend"): _l_extend, ("list", "copy"): _l_copy,
     ("dict", "get"): _d_get, ("dict", "items"): _d_items, ("dict", "keys"): _d_keys,
